@@ -157,12 +157,16 @@ def expiredAt (u : Uat) (ct : Nat) : Bool :=
   | some e => uatExpired e ct
   | none => false
 
+/-- `process_uat_to_identity`: session validity, then the scope mapping. -/
+def processUat (sessions : List (Nat × Session)) (u : Uat) (ct : Nat) : Except Err AccessScope :=
+  if !(tokenValid sessions u ct) then .error .sessionExpired
+  else .ok (uatAccessScope u.purpose ct)
+
 /-- Bearer UAT → identity scope: `validate_and_parse_token_to_identity_token` (expiry), then
-`process_uat_to_identity` (session validity, scope mapping). -/
+`process_uat_to_identity`. -/
 def useUat (sessions : List (Nat × Session)) (u : Uat) (ct : Nat) : Except Err AccessScope :=
   if expiredAt u ct then .error .sessionExpired
-  else if !(tokenValid sessions u ct) then .error .sessionExpired
-  else .ok (uatAccessScope u.purpose ct)
+  else processUat sessions u ct
 
 /-- Ghost record of a successful authentication / re-authentication (read by no function). -/
 structure Event where
